@@ -4,13 +4,17 @@ DRIVER = "drv_c25"
 
 
 def run(c):
-    c.rule = ("cases 0-3 are the fixed scenarios of the design-round findings; every other case is one generated table request: "
+    c.rule = ("cases 0-4 are the fixed scenarios of the findings (window inside a group, has-more, limit 0, shared row marker), cases 5-7 and every "
+              "25th case run the REAL handleGetTable (GetLODs over a range crossing the 1m/1s table boundary, LOD ordering, cache2 with a stub "
+              "loader) and are compared with the model's handleGetTable in order-preserving abstract times; every other case is one generated table request: "
               "1-3 contiguous LODs, 0-5 storage rows per second with tags in 0..3 and string-top values from a 5-string pool, 1-3 handler-whats "
               "(8-18 requested functions give 2-3), row markers copied from storage rows (45%), random (25%) or absent, ascending/descending, "
-              "limit 1..6 / total / large, storage answers consistent across functions (75%) or thinned per function, sorted (85%) or shuffled, "
+              "limit 1..6 / total / large, storage answers consistent across functions (75%) or thinned per function, sorted (85%: the rows of one "
+              "second in the order ClickHouse gives them for the ORDER BY text the real query builder generates for this request) or shuffled, "
               "clean (92%) or with duplicate keys / ungrouped tags / rows outside their LOD, 1/60 answers are errors; 1-4 direct limitQueries calls "
               "per case plus one getTableFromLODs call. Non-trivial = a marker has the time of a stored row (window boundary inside a time group), "
-              "or NaN padding happened with >1 handler-what, or has-more was set with >1 LOD; distinct by op-sequence hash")
+              "or NaN padding happened with >1 handler-what, or has-more was set with >1 LOD, or a descending handleGetTable case with rows in both LODs; "
+              "distinct by op-sequence hash")
     c.assumptions += [
         "loadPoints (ClickHouse + cache) is an input of the model: any list of time groups per (handler-what, LOD), or an error",
         "getHandlerWhat's grouping of the requested functions is an input (the harness passes what the real function returned); value() is not "
@@ -18,8 +22,12 @@ def run(c):
         "strings are compared through order-preserving codes of a fixed pool; numeric tag 47 is 0 (SKey comes from the string column)",
         "sort.Sort leaves the order of rows with equal rowRepr unspecified: model and harness order such runs by the full key",
         "limit/has-more/page oracles apply only when every requested function sees the same clean keys (what a GROUP BY returns)",
+        "ClickHouse is not run: the stub storage orders the rows of one second by reading ASC/DESC per key off the ORDER BY clause of the "
+        "text produced by the real buildSeriesQuery (SQL semantics: a direction belongs to one sort key)",
+        "handleGetTable cases depend on time.Now() only through the position of the 52h LOD switch; they are printed in abstract times",
     ]
-    c.prove("SH.Props.C25", extra_files=["SH/Model/Table.lean"])
+    # helper lemmas live in SH/Lemmas/Table*.lean; they are dependencies of the audited theorems (axiom audit is transitive)
+    c.prove("SH.Props.C25", extra_files=["SH/Model/Table.lean", "SH/Lemmas/Table.lean", "SH/Lemmas/TableCells.lean", "SH/Lemmas/TableOrder.lean"])
     drv = c.driver(DRIVER)
     binary = c.go_build(HARNESS)
     if binary and drv:
@@ -40,16 +48,28 @@ def run(c):
 
 META = {
     "level": "proof",
-    "technique": ("Lean 4 theorems over an executable model of limitQueries/inRange/lessThan/getTableFromLODs (all storage outputs, LOD splits, "
-                  "markers, directions, limits) + differential correspondence with the real functions + direct property oracle on the real results"),
+    "technique": ("Lean 4 theorems over an executable model of limitQueries/inRange/lessThan/getTableFromLODs and of handleGetTable's LOD ordering "
+                  "(all storage outputs, LOD splits, markers, directions, limits) + differential correspondence with the real functions "
+                  "(limitQueries, getTableFromLODs with a stub loadPoints, handleGetTable through GetLODs and cache2 with a stub loader) + direct "
+                  "property oracle on the real results"),
     "text": ("Kernel-checked for every input: limitQueries returns exactly the first `limit` rows of the window in visiting order and has-more "
-             "iff the window holds more; every table row lies in the window and in the marker time range; row keys are unique; every row has "
-             "one column per requested function with NaN where a function had no value (for duplicate-free answers); the result is ordered by "
-             "the visible key in the requested direction; per function the selected rows across LODs are the first `limit` window rows and "
-             "has-more is exact. Old-code variants are refuted by `decide` witnesses. The model is tied to /repo by replaying each generated "
-             "request on the real limitQueries/getTableFromLODs (stub loadPoints) and on the compiled model and diffing rows, NaN pattern and flag."),
+             "iff the window holds more (limitQueries_window_limit); every table row lies in the window (rows_in_window); row keys are unique "
+             "(rows_unique_by_time_tags); the result is ordered by the visible key in the requested direction (rows_sorted); the table holds exactly "
+             "the pages of the requested functions across the LOD split and has-more is exact (table_page); every row has one column per requested "
+             "function (one_column_per_function) and every cell block is the storage values of the row with that key on the page of that function, "
+             "NaN in all its columns iff that page has no row with the key (cell_content, cell_content_page, cellBlock_value, cellBlock_nan_iff) — "
+             "the last three for storage answers without duplicate keys per function; with time-ordered storage the page of a function leads the rest "
+             "of its window in the requested time direction (page_leads_in_time), and the fixed handleGetTable hands the ascending LOD list on "
+             "unchanged (handleGetTable_keeps). Old-code behaviour is refuted by `decide` witnesses: group shortcut, spurious has-more, limit 0, NaN "
+             "padding per handler-what, shared rowRepr.Tags array (getTableAliased; replayed on the pre-fix tree: same order and markers), and the "
+             "double LOD reversal of handleGetTable (Caller.reversesFromEnd). The model is tied to /repo by replaying each generated request on the "
+             "real code and on the compiled model and diffing rows, NaN pattern and flag."),
     "note": ("Trusted: Lean kernel; model<->code correspondence on generated requests (quick 3000, thorough 200000); getHandlerWhat, value(), "
-             "sort.Sort and Go maps are inputs/trusted. The unchanged tree violates the property (window rows skipped, spurious has-more, "
-             "NaN padding per handler-what, shared row-marker tags, index panic for >7 columns): see fixes/C25-*.diff; the model is the fixed code."),
+             "sort.Sort, Go maps, GetLODs and cache2 are inputs/trusted; ClickHouse is not run (the stub honours the generated ORDER BY text). "
+             "Partial: order among the rows of one second inside a page is the storage's order (not a theorem; oracle table-page only); the cell "
+             "theorems need duplicate-free answers per function (a duplicate key gets its values appended twice). The tree at 8d8821bd still "
+             "violates the property in two places outside table.go: handleGetTable reverses the LODs for fromEnd although getTableFromLODs does so "
+             "itself (fixes/C25-descending-lod-order.diff, sig table-page-lod-order), and writeOrderBy appends DESC to the last ORDER BY key only "
+             "(fixes/C25-order-by-desc-every-key.diff, sig table-page); the model is the fixed code."),
     "design_ref": "DESIGN.md §6 C25",
 }
